@@ -819,6 +819,13 @@ class ExprMixin:
                 return self.lift(base.py[key])
             if idx.kind == CONST:
                 return self.lift(base.py[idx.py])
+            if idx.kind == STR and not self.term_mode and len(base.py) <= 8 \
+                    and all(isinstance(k_, str) for k_ in base.py):
+                # symbolic key into a small constant table: one path per key
+                for k_, v_ in base.py.items():
+                    if self.p.choose(idx.t == z3.StringVal(k_)):
+                        return self.lift(v_)
+                self.raise_(KeyError)
             raise Unsupported('symbolic key into constant dict')
         if k == STR:
             i = self.as_int(idx)
@@ -832,6 +839,14 @@ class ExprMixin:
                         self.raise_(IndexError)
                     i = n + i
             return SV(STR, z3.SubString(base.t, i, 1))
+        if k.is_obj and k.name.startswith('Rec'):
+            # record dictionary (a config dict with fixed string keys): keys are fields
+            kt = z3.simplify(idx.t) if idx.kind == STR else None
+            if kt is None or not z3.is_string_value(kt):
+                raise Unsupported('record dictionary indexed by a non-literal key')
+            if self.field_kind(k.name, kt.as_string()) is None:
+                self.raise_(KeyError, kt.as_string())
+            return self.read_field(base, kt.as_string())
         if k.is_obj:
             return self.call_method(base, '__getitem__', [idx])
         raise Unsupported(f'subscript on {k}')
